@@ -262,10 +262,11 @@ type scen struct {
 	ops     []opdef
 	names   []string
 
-	base sdk.Context
-	ctx  sdk.Context
-	fs   *fixtypes.FixationStore
-	ts   *timertypes.TimerStore
+	base  sdk.Context
+	fresh func() sdk.Context // builds a new empty context (nil: branch off base instead)
+	ctx   sdk.Context
+	fs    *fixtypes.FixationStore
+	ts    *timertypes.TimerStore
 
 	m model
 }
@@ -307,7 +308,8 @@ func newScen(stale uint64, rich bool, nIdx int) *scen {
 	for _, o := range s.ops {
 		s.names = append(s.names, o.name)
 	}
-	ctx, key, cdc := newCtx()
+	ctx, key, cdc, fresh := newCtx()
+	s.fresh = fresh
 	s.ts = timertypes.NewTimerStore(key, cdc, "verif_fix")
 	s.fs = fixtypes.NewFixationStore(key, cdc, "verif_fix", s.ts, func(sdk.Context) uint64 { return stale })
 	s.fs.Init(ctx, *fixtypes.DefaultGenesis())
@@ -319,16 +321,19 @@ func newScen(stale uint64, rich bool, nIdx int) *scen {
 // a trivial empty KV store instead of IAVL-over-MemDB: all data lives in the SDK cachekv layers above
 // it (the base context's cache layer is never flushed). The code under test only needs KVStore
 // semantics; opening an iterator on the IAVL/MemDB bottom layer costs ~20x more than everything else.
-func newCtx() (sdk.Context, storetypes.StoreKey, codec.BinaryCodec) {
+func newCtx() (sdk.Context, storetypes.StoreKey, codec.BinaryCodec, func() sdk.Context) {
 	if os.Getenv("C14_IAVL") != "" {
-		return memctx.New("mock")
+		ctx, key, cdc := memctx.New("mock")
+		return ctx, key, cdc, nil
 	}
 	key := sdk.NewKVStoreKey("mock")
-	ms := cachemulti.NewStore(tmdb.NewMemDB(), map[storetypes.StoreKey]storetypes.CacheWrapper{key: emptyStore{}},
-		map[string]storetypes.StoreKey{"mock": key}, nil, nil)
+	fresh := func() sdk.Context {
+		ms := cachemulti.NewStore(tmdb.NewMemDB(), map[storetypes.StoreKey]storetypes.CacheWrapper{key: emptyStore{}},
+			map[string]storetypes.StoreKey{"mock": key}, nil, nil)
+		return sdk.NewContext(ms, tmproto.Header{Height: 10, Time: memctx.BaseTime}, false, log.NewNopLogger())
+	}
 	cdc := codec.NewProtoCodec(codectypes.NewInterfaceRegistry())
-	ctx := sdk.NewContext(ms, tmproto.Header{Height: 10, Time: memctx.BaseTime}, false, log.NewNopLogger())
-	return ctx, key, cdc
+	return fresh(), key, cdc, fresh
 }
 
 type emptyStore struct{}
@@ -362,8 +367,13 @@ func (emptyIter) Close() error               { return nil }
 func (s *scen) Ops() []string { return s.names }
 
 func (s *scen) Reset() {
-	cctx, _ := s.base.CacheContext()
-	s.ctx = cctx
+	if s.fresh != nil {
+		s.ctx = s.fresh()
+		s.fs.Init(s.ctx, *fixtypes.DefaultGenesis())
+	} else {
+		cctx, _ := s.base.CacheContext()
+		s.ctx = cctx
+	}
 	s.m = model{now: uint64(s.ctx.BlockHeight()), stale: s.stale, idx: make([]midx, len(s.indices))}
 	for i := range s.m.idx {
 		s.m.idx[i].pendingDel = none
@@ -838,7 +848,7 @@ func init() {
 			depth int
 			dl    time.Duration
 		}
-		jobs := []job{{"c14/one-stale2", 8, 35 * time.Second}, {"c14/two-stale2", 6, 30 * time.Second}, {"c14/one-stale3-rich", 6, 15 * time.Second}}
+		jobs := []job{{"c14/one-stale2", 9, 30 * time.Second}, {"c14/two-stale2", 6, 25 * time.Second}, {"c14/one-stale3-rich", 7, 12 * time.Second}}
 		if ev.Tier() == "thorough" {
 			jobs = []job{{"c14/one-stale2", 11, 5 * time.Minute}, {"c14/one-stale3-rich", 10, 4 * time.Minute}, {"c14/two-stale2", 7, 5 * time.Minute}}
 		}
